@@ -306,6 +306,49 @@ class Result:
         return 1
 
 
+def conclude(res, lean, regen, rep, run_log=""):
+    """Standard decision logic shared by the checks.
+
+    lean  = result of lean_obligations();  regen = (ok, log) of regen_tables();
+    rep   = harness report with lists `oracle_failures`, `correspondence_failures`, `machinery`.
+    An oracle failure is a concrete failing input: VIOLATION with that input as replay.  A broken
+    proof obligation / translator / correspondence without any oracle failure is still a
+    VIOLATION, reported with `no-failing-input-found` and the name of what no longer checks."""
+    broken = list(lean.get("failures", []))
+    if regen is not None and not regen[0]:
+        broken.append("translator: " + regen[1][-1500:])
+    if rep is None:
+        res.violation("machinery-error", "harness produced no report", run_log[-3000:], found_input=False)
+        return
+    oracle = rep.get("oracle_failures", [])
+    corr = rep.get("correspondence_failures", [])
+    for o in oracle[:3]:
+        cls = o.get("class", "oracle") if isinstance(o, dict) else "oracle"
+        detail = "implementation fails the property's own oracle"
+        if broken:
+            detail += "; also broken: " + "; ".join(broken)[:1500]
+        res.violation("oracle-failure", cls, detail, o, True)
+    if not oracle:
+        for b in broken:
+            kind = "translator" if b.startswith("translator:") else "proof-obligation"
+            res.violation(kind, b[:600], lean.get("log", "")[-3000:], None, False)
+        for c in corr[:3]:
+            cls = c.get("class", "correspondence") if isinstance(c, dict) else "correspondence"
+            res.violation("correspondence", "model no longer matches the implementation (%s); the theorems no longer speak about this code" % cls,
+                          "model != implementation, no oracle failure found by the search", c, False)
+    for m in rep.get("machinery", [])[:3]:
+        res.violation("machinery-error", str(m)[:600], run_log[-2000:], None, False)
+
+
+def proof_coverage(res, lean, prop, extra_checker=""):
+    res.coverage.update({
+        "obligations": lean["obligations"], "discharged": lean["discharged"],
+        "theorems": lean["theorems"],
+        "checker_cmd": "python3 translator/translate.py /repo lean/BindgenModel/Generated && (cd lean && lake build %s bgmodel) && lake env lean <#print axioms audit of every listed theorem>%s%s"
+                       % (" ".join(props_index()[prop]["modules"]), " && lake env leanchecker <modules>" if res.tier == "thorough" else "", extra_checker),
+    })
+
+
 def seed_from_env():
     try:
         return int(os.environ.get("VERIF_SEED", "1"))
